@@ -495,7 +495,10 @@ var c10Queries = []string{
 
 var c10Twins = []string{`rate({__name__=~"m.*"}[2m])`, `max_over_time({__name__=~"m.*"}[1m])`, `-{__name__=~"m0|m1"}`, `abs({__name__=~"m.*"})`, `{__name__=~"m.*"} * 2`,
 	`abs(rate({__name__=~"m.*"}[2m]))`, `-abs({__name__=~"m.*"})`, `abs(-{__name__=~"m.*"})`, `last_over_time({__name__=~"m.*"}[1m])`, `-last_over_time({__name__=~"m.*"}[1m])`,
-	`sum by (a) (rate({__name__=~"m.*"}[2m]))`, `max(-{__name__=~"m.*"})`, `count_over_time({__name__=~"m.*"}[30s])`, `timestamp({__name__=~"m.*"})`}
+	`sum by (a) (rate({__name__=~"m.*"}[2m]))`, `max(-{__name__=~"m.*"})`, `count_over_time({__name__=~"m.*"}[30s])`, `timestamp({__name__=~"m.*"})`,
+	// the same below distributive aggregations, the names given as an alternation, a character class or an anchored pattern
+	`max(-{__name__=~"m0|m1"})`, `sum by (a) (abs({__name__=~"m0|m1"}))`, `sum(rate({__name__=~"m0|m1"}[2m]))`, `min by (a, b) (-{__name__=~"m[01]"})`,
+	`count(abs({__name__=~"m0|m1|m2"}))`, `sum by (a) (rate({__name__=~"(m0|m1)"}[2m]))`, `max(abs({__name__!="m2"}))`, `sum(-{__name__!~"h.*"})`}
 
 var c10Fallback = []string{`round(m0)`, `sum by (a) (round(m0))`, `max_over_time(m0[2m:30s])`, `max(minute(m0))`, `sort(m0)`, `sum(m0) or sum(m1)`,
 	`count(m0 and on(a) m1)`, `sum by (a) (rate(m0[2m:15s]))`, `sgn(m0)`, `label_replace(m0, "d", "$1", "a", "(.*)")`, `count_values("v", m0)`}
